@@ -438,7 +438,7 @@ func c07Gen(r *Rng, n int) []string {
 			}
 			var subs []string
 			sep := ":"
-			if r.P(10) {
+			if r.P(10) || (strings.HasSuffix(path, "]") && r.P(40)) {
 				subs = genSubkeys(r, m, sep)
 			}
 			arr := 0
